@@ -132,12 +132,15 @@ func (c *Ctx) Describe(format string, a ...interface{}) {
 func (c *Ctx) Hint(h string) { c.mu.Lock(); c.hint = h; c.mu.Unlock() }
 
 // Step logs a sub-step of the running case (so that a fatal fault identifies it).
+// The CPU budget applies per logged step: cases that bundle thousands of
+// executions are not charged for their sum.
 func (c *Ctx) Step(format string, a ...interface{}) {
 	d := fmt.Sprintf(format, a...)
 	if len(d) > 4000 {
 		d = d[:4000] + "…"
 	}
 	c.mu.Lock()
+	c.caseCPUStart = cpuTime()
 	c.desc = d
 	c.write(&Line{T: "B", I: c.idx, D: d, K: c.hint})
 	c.mu.Unlock()
